@@ -165,8 +165,14 @@ void DerivArrayEvaluator::operator()(Opcode::Opcode op, Clause::Id id,
 
         case Opcode::OP_NTH_ROOT:
             for (Eigen::Index i=0; i < od.cols(); ++i)
+            {
+                // An odd root is defined (and differentiable) for negative
+                // values: d/dx x^(1/n) = |x|^(1/n - 1) / n
+                const float base = (av(i) < 0 && (int(bv(i)) & 1))
+                    ? -av(i) : av(i);
                 od.col(i) = (ad.col(i) == 0)
-                    .select(0, ad.col(i) * (powf(av(i), 1.0f / bv(i) - 1) / bv(i)));
+                    .select(0, ad.col(i) * (powf(base, 1.0f / bv(i) - 1) / bv(i)));
+            }
             break;
         case Opcode::OP_MOD:
             od = ad;
